@@ -9,6 +9,7 @@ Not decided: the run-time behaviour on concrete alignment files.
 """
 
 import ast
+import itertools
 
 from sa.cfg import cfg_of
 from sa.fold import Evaluator, Obj, Raised, Unfoldable, module_consts, single_defs
@@ -45,64 +46,52 @@ class CN:  # a truthy stand-in for a neutral region in folding grids
 
 
 def r1(repo, res):
+    """genotype() folded whole over (input kind x structure given/estimated x neutral region x average depth x configured
+    minimum x output style): below the minimum the run ends in AldyException before any stage runs and nothing but the
+    closed result line is written; at or above it the stages run."""
+    from checks._genotype import GenotypeModel, Scenario, events
+
     f = repo.func("genotype::genotype")
     res.analysed(f)
-    c = cfg_of(f)
-    consts = module_consts(repo.mod("common"))
-    defs = single_defs(f)
-    depth_names = names_assigned_from(
-        f, lambda e: isinstance(e, ast.Call) and call_name(e).endswith("average_coverage"))
-    if not depth_names:
-        res.err("C19.R1", "no local bound to <coverage>.average_coverage() in genotype()")
-        return
-    stage_calls = []
-    for suf in ("estimate_cn", "estimate_major", "estimate_minor"):
-        cs = find_calls(f, suf)
-        if not cs:
-            res.err("C19.R1", f"stage call {suf} not found in genotype()")
-        stage_calls += [(suf, x) for x in cs]
-    res.floor("C19.R1", "stage calls", len(stage_calls), 3)
-    pts = grid(avg=[0.0, 0.5, 1.99, 2.0, 4.99, 5.0, 30.0], mn=[2.0, 5.0], region=[None, CN()],
-               user_cn=[None, ["1", "1"]])
-
-    def bind(p):
-        env = {n: p["avg"] for n in depth_names}
-        env["cn_region"] = p["region"]
-        env["cn_solution"] = p["user_cn"]
-        return env
-
-    def hook_of(p):
-        base = attr_hook({"min_avg_coverage": p["mn"], "cn_region": p["region"], "cn_solution": p["user_cn"]})
-
-        def hook(node, ev):
-            if isinstance(node, ast.Call) and call_name(node).endswith("average_coverage"):
-                return p["avg"]
-            return base(node, ev)
-
-        return hook
-
-    kn = kind_name(f)
-    for kind in ALIGN_KINDS:
-        removed = c.prune(decide_with({kn: kind}, consts))
-        for suf, call in stage_calls:
-            sink = c.node_of(call)
-            if not c.is_reachable(sink, removed):
-                res.ob("C19.R1", f, call, False, "stage call reachable on alignment route",
-                       f"unreachable for kind={kind!r}", key=f"{suf}|kind={kind}|reach")
-                continue
-            gs = exiting_guards(c, sink, removed, kinds=("raise",))
-            tab = guard_table(gs, pts, bind, consts, defs, hook_of)
-            bad = [p for p, fired in zip(pts, tab) if p["avg"] < p["mn"] and not fired]
-            res.ob(
-                "C19.R1", f, call, not bad,
-                expected="a raising guard that fires whenever avg_cov < min_avg_coverage dominates the call "
-                         "(with and without neutral region / user-supplied structure)",
-                found=("ok: " if not bad else f"no guard fires at {_fmt(bad[0])}; ") + "dominating raising guards: "
-                      + fmt_tests(gs),
-                clause="average depth below the configured minimum => error, regardless of whether the "
-                       "structure is estimated or supplied",
-                key=f"{suf}|kind={kind}",
-            )
+    gm = GenotypeModel(repo)
+    n = 0
+    bad = {}
+    for kind, user_cn, mn, avg, style in itertools.product(ALIGN_KINDS, [None, ["1", "1"]], [None, 5.0, 0.5],
+                                                           [0.0, 0.49, 0.5, 1.99, 2.0, 4.99, 5.0, 30.0], ["aldy", "simple", "none"]):
+        out = {"aldy": Obj(name="out.aldy"), "simple": Obj(name="out.simple"), "none": None}[style]
+        params = {} if mn is None else {"min_avg_coverage": mn}
+        sc = Scenario(kind=kind, avg_coverage=avg, args=dict(output_file=out, cn_solution=user_cn), params=params)
+        try:
+            k, v, trace, printed = gm.run(sc)
+        except Unfoldable as e:
+            res.err("C19.R1", f"genotype() outside the folding language: {e}")
+            return
+        n += 1
+        low = avg < (2.0 if mn is None else mn)
+        staged = [t[0] for t in trace if t[0] in ("estimate_cn", "estimate_major", "estimate_minor", "write_decomposition", "write_vcf")]
+        tag = f"kind={kind!r}, structure {'given' if user_cn else 'estimated'}, minimum {mn if mn is not None else 'default 2.0'}, average depth {avg}, output {style}"
+        if low:
+            if not (k == "raise" and v == "AldyException"):
+                bad.setdefault("guard", f"{tag}: {k} {str(v)[:60]} instead of an error")
+            if staged:
+                bad.setdefault("guard", f"{tag}: stages ran below the minimum depth: {staged}")
+            text = "".join(t for t, fl in printed if fl is out and out is not None)
+            if style == "simple" and not (text.endswith("\n") and text.count("\n") == 1):
+                bad.setdefault("line", f"{tag}: simple output left as {text!r}; expected the sample/gene cells closed by one newline")
+            if style == "aldy" and text:
+                bad.setdefault("line", f"{tag}: output written before the error: {text!r}")
+        else:
+            if k != "return" or staged[:3] != ["estimate_cn", "estimate_major", "estimate_minor"]:
+                bad.setdefault("runs", f"{tag}: {k} {str(v)[:60]}; stages {staged}")
+    res.count("C19.R1:scenarios folded", n)
+    res.ob("C19.R1", f, f, "guard" not in bad,
+           expected="average depth below the configured minimum => AldyException before any stage, on every alignment route, with an estimated or a given structure",
+           found=f"{n} scenarios agree" if "guard" not in bad else bad["guard"],
+           clause="the average depth over the covered locus is below the configured minimum ... no star-allele call is produced ... regardless of whether the "
+                  "gene structure is estimated or supplied by the user", key="depth-guard")
+    res.ob("C19.R1", f, f, "runs" not in bad, expected="at or above the minimum the three stages run", found="ok" if "runs" not in bad else bad["runs"], key="depth-guard-not-overeager")
+    res.ob("C19.R4", f, f, "line" not in bad, expected="the error leaves an empty, closed result line in simple output and nothing in the other formats",
+           found="ok" if "line" not in bad else bad["line"], clause="and an empty result line in simple output", key="line:depth-guard")
 
 
 def r1_atom(repo, res):
@@ -262,41 +251,37 @@ def r3(repo, res):
 
 
 def r4(repo, res):
+    """Errors of an empty stage in simple output: the opened result line is closed exactly once (whole-function folding)."""
+    from checks._genotype import GenotypeModel, Scenario
+
     f = repo.func("genotype::genotype")
-    c = cfg_of(f)
-
-    def is_print(n, pred):
-        return (n.kind == "stmt" and isinstance(n.ast, ast.Expr) and isinstance(n.ast.value, ast.Call)
-                and call_name(n.ast.value) == "print" and pred(n.ast.value))
-
-    def opens(call):
-        e = kwarg(call, "end")
-        return e is not None and isinstance(e, ast.Constant) and "\n" not in str(e.value) and call.args
-
-    def closes(call):
-        return not call.args and kwarg(call, "end") is None and kwarg(call, "file") is not None
-
-    removed = c.prune(decide_with({"is_simple": True}))
-    open_nodes = [n.id for n in c.nodes if is_print(n, opens) and c.is_reachable(n.id, removed)]
-    close_nodes = {n.id for n in c.nodes if is_print(n, closes)}
-    raise_nodes = [n for n in c.nodes if n.kind == "stmt" and isinstance(n.ast, ast.Raise)
-                   and c.is_reachable(n.id, removed)]
-    res.floor("C19.R4", "line-opening prints (simple output)", len(open_nodes), 1)
-    res.floor("C19.R4", "newline prints", len(close_nodes), 4)
-    checked = 0
-    for r in raise_nodes:
-        srcs = [o for o in open_nodes if c.path_exists(o, r.id, removed=removed)]
-        if not srcs:
-            continue
-        checked += 1
-        leak = [o for o in srcs if c.path_exists(o, r.id, avoid=close_nodes, removed=removed)]
-        res.ob("C19.R4", f, r.ast, not leak,
-               expected="every path from the tab-terminated header print to this raise passes `print(file=output_file)`",
-               found="ok" if not leak else "a path reaches the raise with the output line still open",
-               clause="the run ends with an explanatory error (and an empty result line in simple output)",
-               key="raise:" + ast.unparse(r.ast.exc.args[0] if isinstance(r.ast.exc, ast.Call) and r.ast.exc.args
-                                           else r.ast)[:80])
-    res.floor("C19.R4", "raises after the header", checked, 4)
+    gm = GenotypeModel(repo)
+    empties = {"no structure": dict(cn=[], majors={}, minors={}),
+               "no major candidate": dict(cn=[("A", 0.0), ("B", 0.1)], majors={"A": [], "B": []}, minors={}),
+               "no refinement": dict(cn=[("A", 0.0)], majors={"A": [("A1", 0.0)]}, minors={"A1": []})}
+    for label, desc in empties.items():
+        for kind in ALIGN_KINDS + ["vcf"]:
+            out = Obj(name="out.simple")
+            try:
+                k, v, trace, printed = gm.run(Scenario(kind=kind, args=dict(output_file=out), **desc))
+            except Unfoldable as e:
+                res.err("C19.R4", f"genotype() outside the folding language: {e}")
+                return
+            text = "".join(t for t, fl in printed if fl is out)
+            ok = k == "raise" and v == "AldyException" and text.endswith("\n") and text.count("\n") == 1
+            res.ob("C19.R4", f, f, ok, expected=f"{label} (kind {kind!r}): AldyException and the simple-output line closed by exactly one newline",
+                   found=f"{k} {str(v)[:40]}; output {text!r}", clause="the run ends with an explanatory error for that gene (and an empty result line in simple output)",
+                   key=f"line:{label}:{kind}")
+    # is_simple given as an argument (no file suffix) behaves the same
+    out = Obj(name="<stdout>")
+    try:
+        k, v, trace, printed = gm.run(Scenario(avg_coverage=0.1, args=dict(output_file=out, is_simple=True)))
+    except Unfoldable as e:
+        res.err("C19.R4", f"genotype() outside the folding language: {e}")
+        return
+    text = "".join(t for t, fl in printed if fl is out)
+    res.ob("C19.R4", f, f, k == "raise" and text.endswith("\n") and text.count("\n") == 1, expected="is_simple=True: the line is closed on the depth error",
+           found=f"{k}; output {text!r}", key="line:is_simple-argument")
 
 
 def run(repo, res):
@@ -321,6 +306,8 @@ MUTANTS = [
          new='    if kind == "sam":\n        avg_cov', expect="C19.R1"),
     dict(name="R1 hard-coded minimum 1", module="genotype",
          old="        if avg_cov < profile.min_avg_coverage:", new="        if avg_cov < 1:", expect="C19.R1"),
+    dict(name="R1 guard compares the diploid-normalised depth proxy", module="genotype", expect="C19.R1",
+         old="        if avg_cov < profile.min_avg_coverage:", new="        if avg_cov <= profile.min_avg_coverage - 1:"),
     dict(name="R1 guard downgraded to a warning", module="genotype",
          old="""            if is_simple:
                 print(file=output_file)
